@@ -290,6 +290,22 @@ PROPS['C14'] = {
     ],
 }
 
+PROPS['C15'] = {
+    'title': 'Interpolation, location and densification agree along a line',
+    'level': 'model_checking',
+    'verus': [],
+    'kani_extra': ['--no-memory-safety-checks', '--no-overflow-checks', '--no-assertion-reach-checks'],
+    'kani': [
+        ('geo', 'c15.rs', r'^c15_k_(line_interpolation|densify_linestring_)', 'bounded', 'quick'),
+        ('geo', 'c15.rs', r'^c15_k_linestring_interpolation$', 'bounded', 'thorough'),
+    ],
+    'trusted': ['the generic interpolation / densification code is instantiated with an ABSTRACT exact metric on the x-axis (AxisMetric): what is decided is the walk / clamping / duality / vertex-preservation logic for every metric space satisfying the trait contracts, not the Euclidean, Haversine, geodesic or rhumb kernels',
+                'bounded: Line (all integer end points in [-8,8], distances on the half-integer grid in [-4,24]); 3-vertex LineString incl. repeated vertices and back-tracking (thorough); densify of a fixed 4-vertex polyline with max in {2,4,16}'],
+    'undecided_clauses': [
+        'line_locate_point round trip; rounding behaviour for general f64 ratios; the concrete metric spaces; Polygon / Rect / Triangle densify',
+    ],
+}
+
 NOT_APPLICABLE = {
     'C16': 'every clause is an identity between compositions of sin/cos/atan2/asin/sqrt/tan/ln in f64 (or calls into geographiclib-rs); Verus leaves float arithmetic uninterpreted and CBMC models libm as nondeterministic, so no contract stronger than "returns an f64" is provable',
     'C09': 'no contract within reach decides it: Verus cannot take compute_rdp / visvalingam (iterator adaptor chains, BinaryHeap, R-tree, closures without specs); Kani/CBMC does not finish symbolic execution of simplify on a 3-vertex line string even with a concrete tolerance (measured: > 900 s; the sqrt inside the distance kernel makes every distance symbolic and the recursion then runs over slices of symbolic length). The attempted contract is kept in contracts/kani/geo/c09_rdp.rs',
